@@ -132,7 +132,7 @@ class Repo(object):
     packages: sub-directories to parse (relative to root).
     """
 
-    def __init__(self, root, packages=("mpgameserver",), recursive=False):
+    def __init__(self, root, packages=("mpgameserver",), recursive=False, translate=True):
         self.root = os.path.abspath(root)
         self.modules = {}
         self.funcs = {}
@@ -165,7 +165,7 @@ class Repo(object):
             self._index_module(mod)
         self._resolve_bases()
         self.renamed = {}
-        if not os.environ.get("VERIF_NO_REFNAMES"):
+        if translate and not os.environ.get("VERIF_NO_REFNAMES"):
             from . import refnames
             self.renamed = refnames.apply_reference(self)
 
